@@ -111,6 +111,11 @@ func newSessionID() string {
 // cleaned up.
 func (conn *Conn) Serve() {
 	log.Debugf("%s: Connection Established", conn.sessionid)
+
+	// also when a command handler panics (the server recovers that for the connection): the data
+	// connection of the session must not stay open
+	defer conn.Close()
+
 	// send welcome
 	conn.writeMessage(220, conn.server.WelcomeMessage)
 	// read commands
@@ -130,7 +135,6 @@ func (conn *Conn) Serve() {
 			break
 		}
 	}
-	conn.Close()
 	log.Debugf("%s: Connection Terminated", conn.sessionid)
 }
 
